@@ -238,6 +238,7 @@ def units(tier, seed):
         for k in range(4):
             u.append(dict(kind="config", task=task, pairs="double", chunk=[k, 4]))
     u.append(dict(kind="sensing"))
+    u.append(dict(kind="np_scalars"))
     u.append(dict(kind="frame_config"))
     u.append(dict(kind="all_labels"))
     return u
@@ -248,7 +249,30 @@ def bounds(tier, seed):
             "target_labels": "1..%d" % (3 if tier == "quick" else 4), "edits": len(EDITS), "edit_depth": 2, "tasks": list(TASKS) + ["sensing"]}
 
 
+NP_TOKENS = ["NP:float32", "NP:int64", "NP:float64", "NP:datetime64", "NP:bytes", "NP:complex64", "NP:str", "NP:void"]
+NP_SHAPES = ["v", "[v]", "[v,1.0,2.0]", "[1.0,v,2.0]", "[[v]]", "[[v,1.0,2.0]]", "[[1.0],[v]]", "[[1.0,2.0,3.0],[2.0,v,1.0]]"]
+
+
+def _np_value(tok):
+    import numpy as np
+    return {"NP:float32": np.float32(1.5), "NP:int64": np.int64(2), "NP:float64": np.float64(0.25), "NP:datetime64": np.datetime64("2020-01-01"),
+            "NP:bytes": np.bytes_(b"1"), "NP:complex64": np.complex64(1 + 0j), "NP:str": np.str_("1.0"), "NP:void": np.void(b"\x01\x02")}[tok]
+
+
+def _np_spec(shape, v):
+    return {"v": v, "[v]": [v], "[v,1.0,2.0]": [v, 1.0, 2.0], "[1.0,v,2.0]": [1.0, v, 2.0], "[[v]]": [[v]], "[[v,1.0,2.0]]": [[v, 1.0, 2.0]],
+            "[[1.0],[v]]": [[1.0], [v]], "[[1.0,2.0,3.0],[2.0,v,1.0]]": [[1.0, 2.0, 3.0], [2.0, v, 1.0]]}[shape]
+
+
 def run_unit(unit, acc):
+    if unit["kind"] == "np_scalars":
+        for tok in NP_TOKENS:
+            for shape in NP_SHAPES:
+                if shape == "v" and tok in ("NP:bytes", "NP:void", "NP:str"):
+                    continue   # a bare bytes-like / string object as the whole specification is a Python sequence, not an entry: not enumerated
+                for nest in (False, True):
+                    check_case(dict(kind="np_scalars", token=tok, shape=shape, nest=nest, n=3), acc)
+        return
     if unit["kind"] == "spec":
         for spec in spec_space(unit["tier"])[unit["group"]]:
             for n in unit["ns"]:
@@ -297,7 +321,41 @@ def check_case(case, acc):
     if acc.cases % 4001 == 1:
         acc.sample(case)
     k = case["kind"]
-    if k == "spec":
+    if k == "np_scalars":
+        # numpy scalars as threshold entries: the real ones (float32, int64, float64) are numbers, the others (dates, bytes, complex,
+        # strings, raw bytes) are not
+        v = _np_value(case["token"])
+        spec, n, nest = _np_spec(case["shape"], v), case["n"], case["nest"]
+        numeric = case["token"] in ("NP:float32", "NP:int64", "NP:float64")
+        try:
+            ref_norm(_np_spec(case["shape"], 1.0), n, nest)
+            shape_ok = True
+        except ValueError:
+            shape_ok = False
+        want_ok = numeric and shape_ok
+        outcomes = {}
+        fns = [("set_thresholds", lambda: set_thresholds(copy.deepcopy(spec), n, nest))]
+        if isinstance(spec, list) and nest and all(isinstance(t, list) and len(t) == n for t in spec):
+            fns.append(("check_nested_thresholds", lambda: check_nested_thresholds(copy.deepcopy(spec), n)))
+        if isinstance(spec, list) and not nest and len(spec) == n and not any(isinstance(t, list) for t in spec):
+            fns.append(("check_thresholds", lambda: check_thresholds(copy.deepcopy(spec), n)))
+        for nm, fn in fns:
+            acc.exec()
+            try:
+                fn()
+                outcomes[nm] = "ok"
+            except Exception as ex:  # noqa
+                outcomes[nm] = "err"
+        acc.compared()
+        for nm, oc in outcomes.items():
+            if oc == "ok" and not want_ok:
+                acc.violation("threshold:accepted-malformed:numpy-scalar", "%s accepts %s with v = %r (%s) for %d labels, nest=%s; %s" % (
+                    nm, case["shape"], v, type(v).__name__, n, nest, "the entry is not a number" if not numeric else "the shape is malformed"), case)
+            if oc == "err" and want_ok:
+                acc.violation("threshold:rejected-valid:numpy-scalar", "%s rejects %s with the real numpy scalar v = %r for %d labels, nest=%s" % (nm, case["shape"], v, n, nest), case)
+        acc.state(("np", case["token"], case["shape"], nest, tuple(sorted(outcomes.items()))), nontrivial=not numeric)
+        acc.outcome(("np", want_ok))
+    elif k == "spec":
         spec, n, nest = case["spec"], case["n"], case["nest"]
         arg = copy.deepcopy(spec)
         try:
